@@ -454,6 +454,8 @@ def register(reg):
         hints={2: ["dense_bound(r, n, max_id_bucket, wit)", "nl_bound(n, elem)",
                    "CH_own_zero(r, cost_matrix_1d, elem, r[elem], n, n)"]},
         exit_hints={1: ["dense_bound(r, n, max_id_bucket, wit)"]},
+        focus={"mx_wit": ["chg_wit", "add_wit"], "mx_range": ["chg_wit", "add_wit"], "nonpos": ["cumr", "cuml"],
+               "own_zero": ["CH", "TIE"], "dense_bound": ["TOT", "CNT"]},
         call_ghost={
             ("_compute_delta_costs", "maxb"): "max_id_bucket",
             ("_change_bucket", "maxb"): "max_id_bucket", ("_change_bucket", "wit"): "wit",
